@@ -73,6 +73,13 @@ def parseLogger (l o1 o2 : String) : Option Logger :=
     else none
   | _ => none
 
+/-- verdicts of the trusted parsers on the body of the op's message: three 0/1 digits -/
+def parseTrusted (s : String) : Option Trusted :=
+  match s.toList with
+  | [a, b, c] =>
+    if [a, b, c].all (fun x => x == '0' || x == '1') then some ⟨a == '1', b == '1', c == '1'⟩ else none
+  | _ => none
+
 def step (s : St) (toks : List String) : St × String :=
   match toks with
   | "snap" :: _mode :: skip :: cts :: rest =>
@@ -101,6 +108,13 @@ def step (s : St) (toks : List String) : St × String :=
       let r := logMsg lg (skip == "1") m
       (s, (if r.1 == m then "same" else "differs") ++ " rec=" ++ (if r.2.isSome then "1" else "0"))
     | _, _ => (s, "bad-op")
+  | "twinx" :: l :: o1 :: o2 :: skip :: _mode :: tr :: rest =>
+    match parseLogger l o1 o2, parseTrusted tr, parseMsg rest with
+    | some lg, some t, some m =>
+      let r := logMsgT t lg (skip == "1") m
+      (s, (if r.msg == m then "same" else "differs") ++ " rec=" ++ (if r.record.isSome then "1" else "0")
+            ++ " err=" ++ (if r.err then "1" else "0"))
+    | _, _, _ => (s, "bad-op")
   | _ => (s, "bad-op")
 
 end Martian.Drv.C15
